@@ -121,6 +121,7 @@ int libwifi_get_rsn_info(struct libwifi_rsn_info *info, const unsigned char *tag
  * any overlap between group cipher and pairwise cipher.
  */
 void libwifi_enumerate_rsn_suites(struct libwifi_rsn_info *rsn_info, struct libwifi_bss *bss) {
+    if (memcmp(rsn_info->group_cipher_suite.oui, CIPHER_SUITE_OUI, 3) == 0) {
     switch (rsn_info->group_cipher_suite.suite_type) {
         case CIPHER_SUITE_WEP40:
             bss->encryption_info |= LIBWIFI_GROUP_CIPHER_SUITE_WEP40;
@@ -163,6 +164,7 @@ void libwifi_enumerate_rsn_suites(struct libwifi_rsn_info *rsn_info, struct libw
             break;
         default:
             break;
+    }
     }
 
     for (int i = 0; i < rsn_info->num_pairwise_cipher_suites; ++i) {
@@ -394,6 +396,7 @@ int libwifi_get_wpa_info(struct libwifi_wpa_info *info, const unsigned char *tag
  * any overlap between group cipher and pairwise cipher.
  */
 void libwifi_enumerate_wpa_suites(struct libwifi_wpa_info *wpa_info, struct libwifi_bss *bss) {
+    if (memcmp(wpa_info->multicast_cipher_suite.oui, MICROSOFT_OUI, 3) == 0) {
     switch (wpa_info->multicast_cipher_suite.suite_type) {
         case CIPHER_SUITE_WEP40:
             bss->encryption_info |= LIBWIFI_GROUP_CIPHER_SUITE_WEP40;
@@ -409,6 +412,7 @@ void libwifi_enumerate_wpa_suites(struct libwifi_wpa_info *wpa_info, struct libw
             break;
         default:
             break;
+    }
     }
 
     for (int i = 0; i < wpa_info->num_unicast_cipher_suites; ++i) {
